@@ -37,7 +37,7 @@ def leg_a(ctx):
         {"spec": "MC_FluxLoopAbstract.tla", "cfg": "MC_FluxLoopAbstract.cfg", "coverage": True, "workers": 1,
          "what": "abstract loop, MaxIter 4: <>Done and n <= MaxIter for every behaviour"},
         {"spec": "MC_FluxLoopAbstract.tla", "cfg": "MC_FluxLoopAbstract_neg_unbounded.cfg", "workers": 1,
-         "expect": "violates:Terminates", "what": "without the bound the loop need not terminate (lasso under VIEW hiding the counter)"},
+         "expect": "violates:Terminates", "what": "without the bound the loop need not terminate (a lasso: the counter of the unbounded variant is kept modulo 2)"},
         {"spec": "MC_FluxSolverQ.tla", "cfg": "MC_FluxSolverQ.cfg", "coverage": True, "workers": 1,
          "what": "concrete machine with exact rationals refines the abstract loop and terminates"},
     ]
